@@ -38,6 +38,9 @@ fn groups(tier: Tier) -> Vec<Vec<(&'static str, PropLit)>> {
         vec![("a", I(0)), ("b", S("t".into())), ("A", B(true))],
         // a raw-identifier key stands for the identifier without `r#`
         vec![("r#type", I(5)), ("r#plain", S("p".into()))],
+        // the most negative value; keys whose byte length differs from their character count
+        vec![("b", I(i64::MIN)), ("größe", I(42))],
+        vec![("名前", S("n".into())), ("ñ", B(true)), ("a", I(7))],
     ];
     if tier == Tier::Thorough {
         g.extend(vec![vec![("b", I(i64::MIN))], vec![("fn", B(true)), ("type", I(-7))], vec![("A", I(42))], vec![("ab", B(false)), ("a", S("a".into()))]]);
@@ -219,7 +222,7 @@ pub fn queries(spec: &EnumSpec) -> Vec<String> {
             push(k.to_lowercase(), &mut q);
             push(format!("{} ", k), &mut q);
             push(format!("r#{}", k), &mut q);
-            for j in 1..k.len() {
+            for (j, _) in k.char_indices().skip(1) {
                 push(k[..j].to_string(), &mut q);
             }
             push(format!("{}{}", k, k), &mut q);
